@@ -90,9 +90,14 @@ func isConnectionSpecific(k []byte) bool {
 	return false
 }
 
+// ToLower lower-cases the ASCII letters of b in place. Everything else is
+// left alone: setting bit 5 on every octet also turned '_' into DEL and '^'
+// into '~', so a field such as x_request_id went out under another name.
 func ToLower(b []byte) []byte {
-	for i := range b {
-		b[i] |= 32
+	for i, c := range b {
+		if 'A' <= c && c <= 'Z' {
+			b[i] = c + ('a' - 'A')
+		}
 	}
 
 	return b
